@@ -118,6 +118,22 @@ def string_fix_cases(nbytes: int, rng: random.Random):
     return out
 
 
+_BODY = set(ALNUM.encode()) | {0x20}
+
+
+def is_generator_string(raw_bytes: bytes) -> bool:
+    """True for content of the shape the generators make: alnum/space body then homogeneous padding
+    (00, ff, '@' or space) up to the end.  Only such content has an unambiguous expected text."""
+    n = len(raw_bytes)
+    i = 0
+    while i < n and raw_bytes[i] in _BODY:
+        i += 1
+    tail = raw_bytes[i:]
+    if not tail:
+        return True
+    return tail[0] in (0x00, 0xFF, 0x40, 0x20) and tail == bytes([tail[0]]) * len(tail)
+
+
 def expected_string_fix(raw_bytes: bytes) -> str:
     """Text of a generator-made STRING_FIX (alnum/space body + homogeneous tail padding)."""
     s = raw_bytes
